@@ -1,5 +1,6 @@
 """C13: backend linear combinations are a faithful immutable algebra over the curve's scalar field."""
 import copy
+import sys
 import os
 import tempfile
 
@@ -322,6 +323,9 @@ def inverse_case(cx, x, deep=False):
 
 
 def replay(case):
+    if case.get("part") == "setmod":
+        st_ = setmod_shard(case["config"])
+        return "; ".join(v["msg"] for v in st_.violations) or None
     cx = Ctx(case["config"])
     try:
         if case["part"] == "inverse":
@@ -335,6 +339,59 @@ def replay(case):
         cx.close()
 
 
+def setmod_shard(name):
+    """A history with a refusal in it (zkinterface family): values exist, then the program asks for another field - by calling
+    set_modulus or by importing a derived module - and catches a refusal if there is one. Either the change took effect (modulus
+    and inverses are the new field's) or it was refused and NOTHING changed; a refusal that leaves the new modulus behind makes
+    every later inverse wrong."""
+    stats = core.Stats()
+    cx = Ctx(name)
+    try:
+        mod = cx.mod
+        sm = backends.state_module(name, mod)
+        for how in ("set_modulus", "import-derived"):
+            backends.reset_state(name, mod)
+            mod.privval(3)
+            mod.pubval(5)
+            mod.add_constraint(mod.privval(2), mod.pubval(4), mod.privval(8))
+            old = mod.get_modulus()
+            other = backends.FIELDS["zkifbellman"] if old != backends.FIELDS["zkifbellman"] else backends.FIELDS["zkifbulletproofs"]
+            case = {"config": name, "part": "setmod", "how": how}
+            refused = None
+            try:
+                if how == "set_modulus":
+                    sm.set_modulus(other)
+                else:
+                    import importlib
+                    target = "pysnark.zkinterface.backendbellman" if other == backends.FIELDS["zkifbellman"] else "pysnark.zkinterface.backendbulletproofs"
+                    sys.modules.pop(target, None)
+                    importlib.import_module(target)
+            except Exception as e:
+                refused = e
+            now = mod.get_modulus()
+            stats.case(case, True, ("field-change:" + ("refused" if refused is not None else "accepted"),))
+            msg = None
+            if refused is not None and now != old:
+                msg = "the request for another field (%s) was refused with %s, yet get_modulus() now reports %d instead of %d" % (how, type(refused).__name__, now, old)
+            elif refused is None and now not in (old, other):
+                msg = "after the request for another field get_modulus() reports %d" % now
+            elif any((mod.fieldinverse(x) * x) % now != 1 for x in (3, -3, now + 2, -5 * now + 11)):
+                msg = "after the %s request for another field fieldinverse no longer inverts modulo get_modulus()" % ("refused" if refused is not None else "accepted")
+            if msg:
+                stats.violations.append({"case": case, "msg": msg, "key": "setmod"})
+                break
+            sm.privvals[:] = []
+            sm.pubvals[:] = []
+            sm.constraints[:] = []
+            try:
+                sm.set_modulus(old)
+            except Exception:
+                pass
+    finally:
+        cx.close()
+    return stats
+
+
 def run(ctx):
     ctx.rule = RULE
     ctx.assumptions = ["representation evaluators in harness/checks/c13.py", "flatbuffers stand-in only needed to import the zkinterface modules",
@@ -343,4 +400,5 @@ def run(ctx):
     reps = 3 if ctx.tier == "quick" else 3
     jobs = [dict(name=c, seed=ctx.seed * 1000 + 17 * i + k, n_examples=n) for i, c in enumerate(CONFIGS) for k in range(reps)]
     ctx.stats = core.run_shards("harness.checks.c13", "algebra_shard", jobs)
+    ctx.stats.merge_json(core.run_shards("harness.checks.c13", "setmod_shard", [dict(name=c) for c in CONFIGS if c.startswith("zk")] + [dict(name="zkinterface")]).to_json())
     ctx.stats.extra["configs"] = CONFIGS
